@@ -462,13 +462,11 @@ pub fn run_coord(args: &Args) {
         for (ty, t) in valid {
             let cs: Vec<char> = t.chars().collect();
             for i in 0..cs.len() {
-                for delta in [0x100u32, 0x200, 0xFF00, 0x10000, 0xFEE0] {
-                    if let Some(ch) = char::from_u32(cs[i] as u32 + delta) {
-                        let mut c = cs.clone();
-                        c[i] = ch;
-                        let v: String = c.iter().collect();
-                        parse_all(&mut sh, &v, &[ty]);
-                    }
+                for ch in lookalikes(cs[i]) {
+                    let mut c = cs.clone();
+                    c[i] = ch;
+                    let v: String = c.iter().collect();
+                    parse_all(&mut sh, &v, &[ty]);
                 }
             }
         }
